@@ -13,6 +13,7 @@ from sims import t34_lib as T
 from sims.t34_sims import EmuLink, t3_attr
 
 LEAN_TARGETS = ["NfcVerif.Props.C01T34", "drv_t34"]
+HAVE_EMU_MODEL = True
 
 THEOREMS = [
     "NfcVerif.C01T34.t3_attr_roundtrip",
@@ -25,8 +26,9 @@ THEOREMS = [
     "NfcVerif.C01T34.t4_capacity",
     "NfcVerif.C01T34.t4_commands_within_limits",
     "NfcVerif.C01T34.t4_oversize_no_command",
+    "NfcVerif.C01T34.t4_wf_cc4",
+    "NfcVerif.C01T34.t4_wf_cc6",
     "NfcVerif.C01T34.t4_asFound_nlen_counterexample",
-    "NfcVerif.C01T34.t3emu_roundtrip",
 ]
 
 
@@ -184,16 +186,30 @@ def emu_part(ck, model):
                 if len(link.store) != len(store) or (n <= cap and bytes(link.store[16 + 16 * ((n + 15) // 16):]) != bytes(store[16 + 16 * ((n + 15) // 16):])):
                     ck.fail("t3emu-store-damaged", "block store changed outside the written blocks", replay)
             ck.case(("emu", nbr, nbw, nmaxb, len(old), data), 0 < n <= cap, "t3emu")
-    emu_tie(ck, model)
+    if HAVE_EMU_MODEL:
+        emu_tie(ck, model)
 
 
 def emu_tie(ck, model):
-    """commands built by the real reader and processed by the real emulation vs. T3Emu model"""
+    """frames built by the real reader vs. T3Emu.encRead/encWrite, and the real
+    Type3TagEmulation.process_command vs. T3Emu.processCommand on those frames and on mutated ones"""
     rng = ck.rng
     jobs = []
     import nfc.tag.tt3 as tt3
-    from sims.t34_sims import IDM
+    from sims.t34_sims import IDM, PMM
+    ids = hx(IDM + PMM + b"\x12\xFC")
     n_cases = 3000 if ck.thorough else 400
+
+    def raw_job(store, cmd, why):
+        link = EmuLink(store)
+        try:
+            rsp = link.emu.process_command(bytearray(cmd))
+            real = "ok %s store=%s calls=%s" % ("none" if rsp is None else hx(rsp), hx(link.store), ",".join(link.calls) or "-")
+        except Exception as e:  # noqa
+            real = "exc " + exc_name(e)
+        jobs.append(("t3e.raw %s %s %s" % (ids, hx(store), hx(cmd)), real, {"emu-frame": bytes(cmd).hex()[:400], "kind": why}))
+        ck.case(("emuraw", bytes(store), bytes(cmd)), True, "t3emu-frame:" + why)
+
     for k in range(n_cases):
         nblocks = rng.choice([1, 2, 4, 17, 300])
         store = T.rbytes(rng, 16 * nblocks)
@@ -209,20 +225,43 @@ def emu_tie(ck, model):
         bcs = [tt3.BlockCode(b) for b in bl]
         try:
             if write:
-                r = tag.write_without_encryption([sc], bcs, data)
-                real = "ok -"
+                tag.write_without_encryption([sc], bcs, data)
             else:
-                r = tag.read_without_encryption([sc], bcs)
-                real = "ok " + hx(r)
+                tag.read_without_encryption([sc], bcs)
+            err = None
         except Exception as e:  # noqa
-            real = "exc " + exc_name(e)
-        real += " store=" + hx(link.store)
-        req = "t3e.%s %s %d %s %s" % ("write" if write else "read", hx(store), svc, ",".join(map(str, bl)) or "-",
-                                      hx(data) if write else "-")
-        jobs.append((req, real, {"emu-command": req[:300]}))
-        ck.case(("emucmd", req), True, "t3emu-cmd")
-        # raw frames: process_command on exactly the bytes the reader sent
-        for cmd, rsp in link.frames[-1:]:
-            jobs.append(("t3e.raw %s %s" % (hx(store), hx(cmd)),
-                         "ok %s store=%s" % ("none" if rsp is None else hx(rsp), hx(link.store)), {"emu-frame": cmd.hex()[:300]}))
+            err = exc_name(e)
+        sent = [c for c in link.sent_cmds if c[1] in (6, 8)]
+        real = ("ok " + hx(sent[-1])) if sent else "exc " + str(err)
+        jobs.append(("t3e.enc %s %s %d %s %s" % ("w" if write else "r", hx(IDM), svc, ",".join(map(str, bl)) or "-",
+                                                 hx(data) if write else "-"), real, {"emu-encode": (svc, bl)}))
+        ck.case(("emuenc", write, svc, tuple(bl), data), True, "t3emu-encode")
+        if sent:
+            cmd = sent[-1]
+            raw_job(store, cmd, "reader-built")
+            m = bytearray(cmd)
+            r = rng.random()
+            if r < 0.3 and len(m) > 11:       # several services / other service list
+                pos = rng.randrange(10, len(m))
+                m[pos] = rng.randrange(256)
+                raw_job(store, m, "byte-changed")
+            elif r < 0.45:
+                m = m[:rng.randrange(0, len(m))]
+                if m:
+                    m[0] = len(m)
+                raw_job(store, m, "truncated")
+            elif r < 0.6:
+                # two services, elements naming both
+                body = bytearray([2, 0x09, 0x00, 0x0B, 0x00, len(bl)])
+                for b in bl:
+                    body += bytes([0x80 | rng.randrange(0, 3), b & 255]) if b < 256 else bytes([rng.randrange(0, 3), b & 255, b >> 8])
+                if cmd[1] == 8:
+                    body += data
+                m = bytearray([0, cmd[1]]) + IDM + body
+                if len(m) < 256:
+                    m[0] = len(m)
+                    raw_job(store, m, "two-services")
+    for cmd in (bytes([6, 0, 255, 255, 0, 0]), bytes([6, 0, 0x12, 0xFC, 1, 0]), bytes([6, 0, 0x12, 0xFD, 1, 0]),
+                bytes([10, 4]) + IDM, bytes([10, 0x0C]) + IDM, bytes([10, 0x0A]) + IDM, bytes([1]), bytes([2, 6])):
+        raw_job(T.rbytes(rng, 32), cmd, "other-command")
     T.compare(ck, model, jobs, "t3emu-process-command-model-vs-nfcpy")
